@@ -194,6 +194,19 @@ def run_case(c):
                             mech = classify(model, ext, "<start>")   # the extension itself may be unparseable for a known C05 mechanism
                             if mech is None and engines_disagree(inp[:consumed]):
                                 mech = "partial-match-engine-classifies-characters-differently"
+                            if mech is None and var_regex:
+                                # counterfactual: the same prefix fed symbol by symbol is NOT refused -> the refusal comes from the
+                                # greedy (longest) regex match inside a multi-symbol fragment
+                                try:
+                                    ip2 = IterativeParser(f.grammar.rules)
+                                    ip2.new_parse("<start>", ParsingMode.COMPLETE)
+                                    for j_ in range(consumed):
+                                        list(ip2.consume(inp[j_:j_ + 1]))
+                                    if ip2.can_continue():
+                                        mech = "regex-longest-match-only-when-fed-at-once"
+                                except BaseException as e_:
+                                    if type(e_).__name__ in ("CaseTimeout", "KeyboardInterrupt"):
+                                        raise
                             violations.append({"what": f"input {inp!r} fed as {frags!r}: can_continue() is False after {inp[:consumed]!r} although "
                                                        f"{inputs.to_input(ext, binary)!r} (in the reference language) extends it", "mech": mech})
                             ok = False
@@ -255,7 +268,16 @@ def run_case(c):
                     violations.append({"what": f"input {inp!r} fed symbol by symbol: the complete parse differs from every parse of the whole input", "mech": None})
             else:
                 if first is not None and first[0] is not None and first[1]:
-                    violations.append({"what": f"input {inp!r} (not parseable at once) yields a complete parse when fed symbol by symbol", "mech": None})
+                    # known mechanism (seen from its other side): the whole-input parser only tries the LONGEST match of a
+                    # regex terminal and so misses this word; fed symbol by symbol a shorter match completes. Attributed
+                    # only if the parse obtained is a genuine derivation of exactly this input.
+                    mech = None
+                    tcol = ip.collapse(first[0])
+                    seq_ = treeval.leaf_seq(tcol)
+                    ser_ = treeval.to_bytes(seq_) if binary else treeval.to_str(seq_)
+                    if var_regex and not model.check_tree(tcol, "<start>") and ser_ == inp:
+                        mech = "regex-longest-match-only-when-fed-at-once"
+                    violations.append({"what": f"input {inp!r} (not parseable at once) yields a complete parse when fed symbol by symbol", "mech": mech})
         except steps.StepBudgetExceeded:
             stats["inputs_step_budget"] += 1
         except Exception as e:
